@@ -3,19 +3,22 @@ open Lz4v
 open Common
 
 let () =
-  reg "specdec" (function [h; b] -> show_opt (spec_decode_fast (bytes_of_hex h) (bytes_of_hex b)) | _ -> "badargs");
-  reg "strict" (function [h; b] -> show_opt (strict_valid_fast (bytes_of_hex h) (bytes_of_hex b)) | _ -> "badargs");
+  (* specdec / strict: the map-based implementation (n log n whatever the offsets); *_list: the list-based one *)
+  reg "specdec" (function [h; b] -> show_opt (spec_decode_mem (bytes_of_hex h) (bytes_of_hex b)) | _ -> "badargs");
+  reg "strict" (function [h; b] -> show_opt (strict_valid_mem (bytes_of_hex h) (bytes_of_hex b)) | _ -> "badargs");
+  reg "specdec_list" (function [h; b] -> show_opt (spec_decode_fast (bytes_of_hex h) (bytes_of_hex b)) | _ -> "badargs");
+  reg "strict_list" (function [h; b] -> show_opt (strict_valid_fast (bytes_of_hex h) (bytes_of_hex b)) | _ -> "badargs");
   reg "specdec_ref" (function [h; b] -> show_opt (spec_decode (bytes_of_hex h) (bytes_of_hex b)) | _ -> "badargs");
   reg "strict_ref" (function [h; b] -> show_opt (strict_valid (bytes_of_hex h) (bytes_of_hex b)) | _ -> "badargs");
   reg "xxh32" (function [seed; b] -> Big_int_Z.string_of_big_int (xxh32 (Big_int_Z.big_int_of_string seed) (bytes_of_hex b)) | _ -> "badargs");
   reg "frame" (function [strict; skip; d; b] ->
-      let bdec = if strict = "1" then strict_valid_fast else spec_decode_fast in
+      let bdec = if strict = "1" then strict_valid_mem else spec_decode_mem in
       (match frame_decode bdec (skip = "1") (bytes_of_hex d) (bytes_of_hex b) with
        | None -> "none"
        | Some (c, rest) -> Printf.sprintf "ok %s rest=%d" (show_bytes c) (List.length rest))
     | _ -> "badargs");
   reg "stream" (function [strict; d; b] ->
-      let bdec = if strict = "1" then strict_valid_fast else spec_decode_fast in
+      let bdec = if strict = "1" then strict_valid_mem else spec_decode_mem in
       let bs = bytes_of_hex b in
       show_opt (stream_decode bdec false (Big_int_Z.big_int_of_int (List.length bs + 1)) (bytes_of_hex d) [] bs)
     | _ -> "badargs")
